@@ -153,6 +153,22 @@ def encode_junction(res):
     return None
 
 
+def _lex_le(n1, c1, n2, c2):
+    return z3.Or(n1 < n2, z3.And(n1 == n2, c1 <= c2))
+
+
+def canonical(res):
+    """tail->head tuples are ordered by construction (tail first); two tails are in ascending and two
+    heads in descending (name, coordinate) order"""
+    sorts = [x.sort() for x in res]
+    S, I = smt.Str, smt.Int
+    if sorts == [S, I, I, S]:
+        return _lex_le(res[0], res[1], res[3], res[2])
+    if sorts == [I, S, S, I]:
+        return _lex_le(res[2], res[3], res[1], res[0])
+    return z3.BoolVal(True)
+
+
 def same_end(x, y):
     return z3.And(x[0] == y[0], x[1] == y[1], x[2] == y[2])
 
@@ -173,7 +189,11 @@ class _:
         if enc is None:
             return [("shape", False)]
         want = (left_facing_end(a), right_facing_end(b))
-        return [("names-the-two-facing-ends", same_unordered_pair(enc, want))]
+        return [
+            ("names-the-two-facing-ends", same_unordered_pair(enc, want)),
+            # the tuple is a function of the unordered pair: a fixed order of the two ends
+            ("canonical-order", canonical(res)),
+        ]
 
     raises = {"ValueError": lambda o: z3.Or(o.self.strand == 0, o.othr.strand == 0)}
 
